@@ -204,6 +204,38 @@ pub fn shape_flags(b: &Built) -> String {
     if ru {
         flags.push("RU".to_string());
     }
+    // an instantiated component's interface environment has one interface twice: imported and exported (on
+    // one semver track), or imported implicitly as the dependency of an import while also exported
+    let mut ie = false;
+    for c in &b.library.comps {
+        if !instantiated.contains(&c.name) {
+            continue;
+        }
+        let mut imp: BTreeSet<String> = BTreeSet::new();
+        let mut exp: BTreeSet<String> = BTreeSet::new();
+        for it in &c.items {
+            match it {
+                WorldItem::ImportIface(p, i) => {
+                    imp.insert(crate::props::c02::track_key(&b.library.apis[*p].iface_path(*i)));
+                    for x in &b.library.apis[*p].ifaces[*i].items {
+                        if let Item::Use { from, .. } = x {
+                            imp.insert(crate::props::c02::track_key(&b.library.apis[from.0].iface_path(from.1)));
+                        }
+                    }
+                }
+                WorldItem::ExportIface(p, i) => {
+                    exp.insert(crate::props::c02::track_key(&b.library.apis[*p].iface_path(*i)));
+                }
+                _ => {}
+            }
+        }
+        if imp.intersection(&exp).next().is_some() {
+            ie = true;
+        }
+    }
+    if ie {
+        flags.push("IE".to_string());
+    }
     // an exported node that is a function taken out of an interface instance (alias of an alias)
     if b.graph.node_ids().any(|n| {
         b.graph[n].export_name().is_some()
